@@ -336,6 +336,33 @@ func enumV3(s *SS, ver *spec.Version, plan strPlan) {
 			}
 		}
 	}
+	// (e) pair-order sweep: every ordered pair of metrics (X before Y) with every pair of their values moved to the
+	// front, the remaining metrics following in canonical order (all of them / mandatory ones only) — the order in
+	// which two fields of the packed object are written, with every joint value
+	for x := 0; x < nm; x++ {
+		for y := 0; y < nm; y++ {
+			if x == y {
+				continue
+			}
+			for vx := range ver.Metrics[x].Values {
+				for vy := range ver.Metrics[y].Values {
+					for _, full := range []bool{true, false} {
+						a := definedRot(ver, vx+vy)
+						el := []string{ver.Elem(x, vx), ver.Elem(y, vy)}
+						for i := 0; i < nm; i++ {
+							if i == x || i == y || (!full && !ver.Mandatory(i)) {
+								continue
+							}
+							el = append(el, ver.Elem(i, int(a[i])))
+						}
+						s.Eval(ver.Join(el))
+						// and the same two written last
+						s.Eval(ver.Join(append(append([]string(nil), el[2:]...), el[0], el[1])))
+					}
+				}
+			}
+		}
+	}
 	// (d) rotations and reversal of full vectors
 	for rot := 0; rot < 4; rot++ {
 		full := elemsOf(ver, definedRot(ver, rot), nil)
